@@ -29,6 +29,7 @@ def space(tier):
 
 def cases(tier):
     q = tier == 'quick'
+    yield from prodfirst_cases(tier)
     for d in ([1, 2, 3] if q else [1, 2, 3, 4, 5]):
         for dims in (itertools.product([2, 3], repeat=d) if d < 5 else [(2,) * 5]):
             if d == 4 and np.prod(dims) > 36:
@@ -55,6 +56,21 @@ def cases(tier):
                             yield {'dims': list(dims), 'H': hk, 'r': rk, 'h': 0.05, 'nz': 0, 'nsteps': 2, 'schmidt': True}
                     # a REAL initial state (the flow is complex all the same)
                     yield {'dims': list(dims), 'H': hk, 'r': rk, 'h': 0.3, 'nz': 0, 'x0': 'real'}
+
+
+def prodfirst_cases(tier):
+    # x0 = a (x) phi with phi of maximal ranks on the remaining sites (ranks [1, 1, maximal...]): the first two-site update only
+    # completes bond 1 (the basis of site 0 becomes complete, its forward and backward half steps cancel), afterwards every update
+    # of the HYBRID scheme works with complete bases -- no update has a projection error, so the flow is exact although the ranks
+    # of x0 are not maximal
+    dimsets = [(2, 2, 2), (3, 3, 3), (2, 3, 2), (3, 2, 3), (2, 2, 2, 2), (2, 3, 2, 2), (3, 2, 2, 2)]
+    if tier != 'quick':
+        dimsets += [(2, 2, 3, 2), (3, 3, 2, 2), (2, 2, 2, 2, 2)]
+    for dims in dimsets:
+        rk = [1, 1] + max_ranks(list(dims[1:]))[1:]
+        for hk in ('dense-real', 'dense-complex', 'heisenberg') if len(set(dims)) == 1 and dims[0] == 2 else ('dense-real', 'dense-complex'):
+            for h in (0.05, 0.3):
+                yield {'dims': list(dims), 'H': hk, 'r': rk, 'h': h, 'nz': 0, 'prodfirst': True}
 
 
 class NormMonitor:
@@ -208,7 +224,7 @@ def run_case(case, seed):
                     with r.op(key + ':call'):
                         sol = f(op, x0t, h, nsteps, threshold=thr, max_rank=mr, normalize=nz)
                         # representable: maximal ranks, or non-interacting H (the exact flow keeps the ranks)
-                        check_list(key, sol, representable, False)
+                        check_list(key, sol, representable or bool(name == 'tdvp' and case.get('prodfirst') and (mr == np.inf or thr != 0)), False)
                         if isinstance(sol, list) and mr != np.inf:
                             r.true(key + ':rank-cap', all(max(s.ranks) <= mr for s in sol[1:] if meta_problem(s) is None))
                 finally:
